@@ -566,6 +566,8 @@ class ReactiveServer:
         # StreamReaderProtocol feeds EOF): a read pending on this connection returns b''
         if not conn.server_closed and not conn.reader._eof:
             conn.reader.feed_eof()
+            conn.server_closed = True       # nothing more can be delivered on this connection
+            conn.pending = None
 
     def __init__(self, shared):
         self.shared = shared
@@ -590,10 +592,27 @@ class ReactiveServer:
             if path in sh.get('paths', {}):
                 k = sh['paths'][path]
             sh['requests'].append((sh['net'].conns.index(conn), head + b'\r\n\r\n' + rest[:n]))
+            # a slow server: what it still owes of the previous response on this connection is on
+            # its way when the next request arrives, and is delivered before the new response
+            pend = getattr(conn, 'pending', None)
+            if pend:
+                conn.pending = None
+                for seg in pend[0]:
+                    conn.send(seg)
+                if pend[1]:
+                    conn.close()
             if k < len(sh['script']):
                 segs, eof = sh['script'][k]
+                hold = sh.get('hold', {}).get(k)
+                if hold is not None and hold < len(segs):
+                    conn.pending = (segs[hold:], eof)
+                    segs, eof = segs[:hold], False
                 t = asyncio.ensure_future(conn.send_segments(segs, eof=eof))
                 sh['feeders'].append(t)
+
+
+class _LeaveBlock(Exception):
+    """raised by the harness inside a `with client.session()` block to leave it by exception"""
 
 
 class FaultyFile:
@@ -668,6 +687,7 @@ def real_session_sequence(exchanges, recorder_params=None, keep_alive=True, igno
     async def go():
         net = fakenet.FakeNet()
         shared = {'net': net, 'script': [(e['segs'], e['eof']) for e in exchanges], 'requests': [], 'feeders': []}
+        shared['hold'] = {k: e['hold'] for k, e in enumerate(exchanges) if e.get('hold') is not None}
         paths = [e.get('path', '/p%d' % k) for k, e in enumerate(exchanges)]
         if len(set(paths)) == len(paths):
             shared['paths'] = {p: k for k, p in enumerate(paths)}
@@ -738,10 +758,21 @@ def real_session_sequence(exchanges, recorder_params=None, keep_alive=True, igno
                         session = client.session()
                         session.event_dispatcher.add_listener(session.Event.response_data,
                                                               lambda d: notified.append(bytes(d)))
-                        with session:
-                            response = await compat._ensure(session.start(request))
-                            await compat._ensure(session.download(out))
-                            return response
+                        leave = e.get('leave', 'full')
+                        box = {}
+                        try:
+                            with session:
+                                box['response'] = response = await compat._ensure(session.start(request))
+                                if leave == 'full':
+                                    await compat._ensure(session.download(out))
+                                elif leave == 'raise':
+                                    raise _LeaveBlock()
+                                elif leave == 'abort':
+                                    session.abort()
+                                # 'header': the header was enough; the block is left normally
+                                return response
+                        except _LeaveBlock:
+                            return box['response']
                     task = asyncio.ensure_future(one())
                     done = await fakenet.settle(task, shared['feeders'], extra=60)
                     if not done:
@@ -908,6 +939,7 @@ class OverlapServer:
         if not conn.server_closed and not conn.reader._eof:
             self.shared['closed_under_reader'] = self.shared.get('closed_under_reader', 0) + 1
             conn.reader.feed_eof()
+            conn.server_closed = True
 
 
 def real_overlap(case, recorder_params):
@@ -1085,4 +1117,87 @@ def real_timeout_sequence(exchanges, timeout):
                     break
             conn.close()
         return results, len(net.conns)
+    return arun(go())
+
+
+# ------------------------------------------------------------------ redirects through the real WebClient
+class RedirectServer:
+    """`/start...` is answered with a redirect whose Location is the case's raw value; every other
+    request-target with a 200.  Every request is logged as (Host value, request-target)."""
+
+    def __init__(self, shared):
+        self.shared = shared
+        self.buf = b''
+
+    def on_write(self, conn, data):
+        self.buf += data
+        while b'\r\n\r\n' in self.buf:
+            head, _, self.buf = self.buf.partition(b'\r\n\r\n')
+            lines = head.split(b'\r\n')
+            target = lines[0].split(b' ')[1]
+            host = b''
+            for l in lines[1:]:
+                if l.lower().startswith(b'host:'):
+                    host = l.split(b':', 1)[1].strip()
+            sh = self.shared
+            sh['requests'].append((host.decode('latin-1'), target.decode('latin-1'), head + b'\r\n\r\n'))
+            if target.startswith(b'/start') and len(sh['requests']) <= sh['hops']:
+                body = b'moved'
+                msg = b'HTTP/1.1 %d Moved\r\nLocation: %s\r\nContent-Length: %d\r\n\r\n%s' % (sh['code'], sh['location'], len(body), body)
+            else:
+                body = b'final page %d' % len(sh['requests'])
+                msg = b'HTTP/1.1 200 OK\r\nContent-Length: %d\r\n\r\n%s' % (len(body), body)
+            sh['sent'].append(msg)
+            conn.send(msg)
+
+    def on_close(self, conn):
+        if not conn.server_closed and not conn.reader._eof:
+            conn.reader.feed_eof()
+            conn.server_closed = True
+
+
+def real_redirect(case, recorder_params):
+    """The recorder behind the REAL WebClient / WebSession (redirect following): `/start` redirects
+    to `case['location']` (raw bytes, as a server would write it: not normalised)."""
+    from wpull.protocol.http.client import Client
+    from wpull.protocol.http.web import WebClient
+    from wpull.protocol.http.request import Request
+    from wpull.network.pool import ConnectionPool
+    from wpull.warc.recorder import WARCRecorder
+
+    async def go():
+        net = fakenet.FakeNet()
+        shared = {'requests': [], 'sent': [], 'location': case['location'], 'code': case['code'], 'hops': case.get('hops', 1)}
+        net.listen(None, 80, lambda: RedirectServer(shared))
+        out = {'responses': []}
+        with net:
+            http_client = Client(connection_pool=ConnectionPool(resolver=fakenet.FakeResolver()))
+            web_client = WebClient(http_client)
+            recorder = WARCRecorder(recorder_params['filename'], params=recorder_params['params'])
+            recorder.listen_to_http_client(http_client)
+
+            async def crawl():
+                session = web_client.session(Request(case.get('start', 'http://h/start')))
+                with session:
+                    n = 0
+                    while not session.done() and n < 6:
+                        n += 1
+                        response = await compat._ensure(session.start())
+                        sink = io.BytesIO()
+                        await compat._ensure(session.download(sink))
+                        out['responses'].append((response.status_code, sink.getvalue()))
+            task = asyncio.ensure_future(crawl())
+            done = await fakenet.settle(task, [], extra=200)
+            if not done:
+                task.cancel()
+                out['error'] = 'stalled'
+            else:
+                try:
+                    task.result()
+                except Exception as e:
+                    out['error'] = classify_exc(e)
+            recorder.close()
+        out['requests'] = [(h, t) for h, t, _ in shared['requests']]
+        out['sent'] = shared['sent']
+        return out
     return arun(go())
